@@ -4,6 +4,7 @@ import HexModel.Core.Hexital
 import HexModel.Core.Input
 import HexModel.Core.SettingsWire
 import HexModel.Core.Surface
+import HexModel.Analysis.Utils
 /-
 The line-protocol driver: one operation per line in, canonical output lines out.
 -/
@@ -320,6 +321,29 @@ def step (st : DState) (line : String) : DState × List String :=
         | a, none => runAnalysis a s.mgr.candles (-1)
       (st, [showRes r])
     | _, _ => (st, ["bad-op"])
+  -- `hexital.analysis.utils` called directly on the candles of the indicator object: `autil fn=<python name> [length=<n>]
+  -- [idx=<i>] [pct=<num>]` (absent = the function's default / `index=None`); the two-candle predicates: `idx=<i> two=<j>`
+  | "autil" :: rest =>
+    let (ps, _) := splitParams rest
+    match st.ind with
+    | none => (st, ["bad-op"])
+    | some s =>
+      let cs := s.mgr.candles
+      let idx : Option Int := (param ps "idx").bind String.toInt?
+      let fn := pStr ps "fn" ""
+      match AUtils.Fn.ofName fn with
+      | some f =>
+        match AUtils.Fn.call f cs ((param ps "length").bind String.toInt?) idx ((param ps "pct").bind parseNum) with
+        | .ok r => (st, [showNum r])
+        | .error e => (st, [s!"aerr {e}"])
+      | none =>
+        match idx, (param ps "two").bind String.toInt? with
+        | some i, some j =>
+          match AUtils.gapCall fn cs i j with
+          | .ok (some b) => (st, [toString b])
+          | .ok none => (st, ["bad-op"])
+          | .error e => (st, [s!"aerr {e}"])
+        | _, _ => (st, ["bad-op"])
   | "hmember" :: rest =>
     let (ps, _) := splitParams rest
     if param ps "form" == some "bad" then ({ st with pendingBad := true }, ["ok name=-"]) else
